@@ -48,9 +48,10 @@ type vhnNet struct {
 	// it (counted under Filtered, not under Dropped). For scripted loss patterns.
 	Filter func(dir int, b []byte) bool
 
-	stop   chan struct{}
-	stopMu sync.Once
-	wg     sync.WaitGroup
+	stop    chan struct{}
+	stopMu  sync.Once
+	stopped bool
+	wg      sync.WaitGroup
 
 	// counters (read them after Stop, or under mu)
 	Sent, Dropped, Duped, Reordered, Delivered, Filtered [2]int64
@@ -96,6 +97,9 @@ func (n *vhnNet) SetClean() { n.clean.Store(true) }
 
 // Stop abandons pending deliveries and waits for the delivery goroutines.
 func (n *vhnNet) Stop() {
+	n.mu.Lock()
+	n.stopped = true // no delivery goroutine is started from here on (wg.Add vs wg.Wait)
+	n.mu.Unlock()
 	n.stopMu.Do(func() { close(n.stop) })
 	n.wg.Wait()
 }
@@ -150,7 +154,7 @@ func (pc *vhnPC) WriteTo(p []byte, addr net.Addr) (int, error) {
 	h := vhnMix(n.seed, uint64(dir)+1, seq)
 	delay := time.Duration(n.faults.BaseDelayMs) * time.Millisecond
 	copies := 1
-	if dst == nil {
+	if dst == nil || n.stopped {
 		copies = 0 // sent into the void
 	} else if n.Filter != nil && !n.Filter(dir, b) {
 		copies = 0
@@ -178,13 +182,13 @@ func (pc *vhnPC) WriteTo(p []byte, addr net.Addr) (int, error) {
 			n.consec[dir] = 0
 		}
 	}
+	n.wg.Add(copies)
 	n.mu.Unlock()
 	for i := 0; i < copies; i++ {
 		dl := delay
 		if i > 0 {
 			dl += time.Duration(1+vhnU(vhnMix(h, 4, uint64(i)))*40) * time.Millisecond
 		}
-		n.wg.Add(1)
 		go func(dl time.Duration) {
 			defer n.wg.Done()
 			if dl > 0 {
